@@ -20,7 +20,7 @@ RULE = ("Three workloads on SupervisedOPF. relevance: fit + one predict(batch) o
         "at opf_accuracy) is maximal. prune: each re-fit's training multiset == the rows flagged relevant in the previous forest, final nodes a "
         "sub-multiset of the original (row,label) pairs. Non-trivial: relevance - a flagged non-conqueror ancestor and an unflagged sample; learn - "
         ">=1 swap executed and >=2 iterations; prune - >=1 sample discarded; distinct = case hash.")
-RULE += (" learn: 6% of the cases use int64 features around 2^60 (exact byte multisets), 8% inject extreme admissible outcomes of numpy's global uniform generator (largest double below high / exactly low / alternating). One designed relevance run per check with a ~1100-deep optimum path.")
+RULE += (" learn: 6% of the cases use int64 features around 2^60 (exact byte multisets), 8% inject extreme admissible outcomes of numpy's global uniform generator (largest double below high / exactly low / alternating). One designed relevance run per check with a ~1100-deep optimum path." + ' prune: the rows a re-fit may train on are judged against the relevance flags frozen at the exit of the last prediction pass (sub-multiset).')
 ASSUMPTIONS = [
     "prune aborting after a class has vanished from the relevant set (single-class refit) is counted 'aborted'; the discard-only claim is still checked on every refit that happened",
     "learn's random swap partner comes from numpy's global RNG, seeded per case for replay",
